@@ -240,8 +240,8 @@ where
                 (v[1].usize()?, v[2].bool()?, v[3].i64()?, T::dec(&v[4])?, v[5].usize()?, v[6].usize()?);
             let r = match regs.get(a).unwrap_or(&dead) {
                 Obj::Rec(x) => rec_un::<T>(ucode, &c, x, form)?.map(Obj::Rec),
-                Obj::Ten(x) => ten_un::<T, 2>(assign, ucode, &c, x, form)?.map(Obj::Ten),
-                Obj::Mat(x) => mat_un::<T>(assign, ucode, &c, x, form)?.map(Obj::Mat),
+                Obj::Ten(x) => ten_un::<T, _, 2>(assign, ucode, &c, x, form)?.map(Obj::Ten),
+                Obj::Mat(x) => mat_un::<T, _>(assign, ucode, &c, x, form)?.map(Obj::Mat),
                 Obj::Dead => return Some(skipped()),
             };
             finish(lists, regs, dst, r)
@@ -251,8 +251,8 @@ where
                 (v[1].usize()?, v[2].i64()?, v[3].i64()?, v[4].usize()?, v[5].usize()?, v[6].usize()?);
             let r = match (regs.get(a).unwrap_or(&dead), regs.get(b).unwrap_or(&dead)) {
                 (Obj::Rec(x), Obj::Rec(y)) => rec_bin::<T>(bcode, x, y, form)?.map(Obj::Rec),
-                (Obj::Ten(x), Obj::Ten(y)) => ten_bin::<T, 2>(mode, bcode, x, y, form)?.map(Obj::Ten),
-                (Obj::Mat(x), Obj::Mat(y)) => mat_bin::<T>(mode, bcode, x, y, form)?.map(Obj::Mat),
+                (Obj::Ten(x), Obj::Ten(y)) => ten_bin::<T, _, _, 2>(mode, bcode, x, y, form)?.map(Obj::Ten),
+                (Obj::Mat(x), Obj::Mat(y)) => mat_bin::<T, _, _>(mode, bcode, x, y, form)?.map(Obj::Mat),
                 _ => return Some(skipped()),
             };
             finish(lists, regs, dst, r)
@@ -260,8 +260,8 @@ where
         (7, 5) => {
             let (dst, a, b, form) = (v[1].usize()?, v[2].usize()?, v[3].usize()?, v[4].usize()?);
             let r = match (regs.get(a).unwrap_or(&dead), regs.get(b).unwrap_or(&dead)) {
-                (Obj::Ten(x), Obj::Ten(y)) => ten_matmul::<T>(x, y, form).map(Obj::Ten),
-                (Obj::Mat(x), Obj::Mat(y)) => mat_matmul::<T>(x, y, form).map(Obj::Mat),
+                (Obj::Ten(x), Obj::Ten(y)) => ten_matmul::<T, _, _>(x, y, form).map(Obj::Ten),
+                (Obj::Mat(x), Obj::Mat(y)) => mat_matmul::<T, _, _>(x, y, form).map(Obj::Mat),
                 _ => return Some(skipped()),
             };
             finish(lists, regs, dst, r)
